@@ -138,6 +138,14 @@ def run(pid, tier, replay_file=None):
                 elif o["kind"] == "ok":
                     add_event(si, vi, '[id |-> @ID@, p |-> "C04", doc |-> %s, v |-> %s, kind |-> "ok", out |-> %s]'
                               % (doc_tla(), tlajson_to_tla(tagged_values[vi]), _out(o)))
+                # the used element after `additionalProperties` was reassigned
+                ro = ob["reconf_calls"][vi] if ob.get("reconf_calls") else None
+                if ro is not None and ro["kind"] == "ok":
+                    try:
+                        add_event(si, ("reconf", vi), '[id |-> @ID@, p |-> "C04", doc |-> %s, v |-> %s, kind |-> "ok", out |-> %s]'
+                                  % (codec.json_to_tla_schema(ob["reconf_doc"]), tlajson_to_tla(tagged_values[vi]), _out(ro)))
+                    except ValueError:
+                        pass
                 # the same class through a subclass that adds nothing
                 so = ob["sub_calls"][vi] if ob.get("sub_calls") else None
                 if so is not None and so["kind"] == "ok" and not (o["kind"] == "ok" and codec.norm_real(so["out"]) == codec.norm_real(o["out"])):
@@ -307,7 +315,13 @@ def run(pid, tier, replay_file=None):
                               f"{json.dumps(pyvals[tag])[:80]}", dict(schema=d, value_index=tag))
                 continue
             st, ob = states[si], observations[si]
-            if isinstance(tag, tuple) and tag[0] == "again":
+            if isinstance(tag, tuple) and tag[0] == "reconf":
+                o = ob["reconf_calls"][tag[1]]
+                rep.violation((pid + "-after-reassignment", _kwsig(st["doc"])),
+                              f"observation rejected by R_{pid}: after use, additionalProperties = Number() was assigned to the element of "
+                              f"{json.dumps(codec.schema_to_json(st['doc']))[:160]}; it builds from "
+                              f"{json.dumps(pyvals[tag[1]])[:80]}: {_short(o)}", _payload(st, tag[1], o))
+            elif isinstance(tag, tuple) and tag[0] == "again":
                 o = ob["again_calls"][tag[1]]
                 rep.violation((pid + "-second-parse", _kwsig(st["doc"])),
                               f"observation rejected by R_{pid}: the document dictionary of "
